@@ -164,7 +164,8 @@ def run(tier, seed):
     add("a concurrent line fails while a long action runs", e2e_play(second_line="bad"), 8, 2, expect_fail=True)
     add("audit foul with -S during a long action", e2e_play(audience="audience\n  bob audits throughout\n  bob expects always: mood == 'clear'\nend\n"), 8, 2, args=["-S"], expect_fail=True)
     add("evaluation error", e2e_play(scene_x="quick", audience="audience\n  bob audits throughout\n  bob expects always: t < 'a'\nend\n"), 8, 2, expect_fail=True)
-    add("spotlight ignoring SIGHUP", e2e_play(scene_x="quick", spot="trap '' HUP; sleep 100"), 8, 2, expect_fail=None)
+    for _ in range(3 if tier == "quick" else 12):
+        add("spotlight ignoring SIGHUP", e2e_play(scene_x="quick", spot="trap '' HUP; sleep 100"), 8, 2, expect_fail=None)
     add("spotlight with children", e2e_play(scene_x="quick", spot="sleep 100 & sleep 100 & wait"), 8, 2)
     add("initial cleanup fails", e2e_play(scene_x="quick", cleanup=CLEAN + "; exit 1"), 8, 1, expect_fail=True)
     add("nothing goes wrong", e2e_play(scene_x="quick"), 8, 2, expect_fail=False)
